@@ -175,8 +175,6 @@ SessEnvelope(s) ==
         /\ (FarOf(s, p1) \in Tunnels(s)) = (FarOf(s, p2) \in Tunnels(s))
         /\ FarOf(s, p1).peer = FarOf(s, p2).peer
   /\ \A p \in PdrsOf4(s) : Cardinality(QfiQers(s, p)) <= 1
-  /\ \A p \in PdrsOf4(s) : \A i \in 1..Len(p.qers) : (p.qers[i] \in DOMAIN s.qers /\ s.qers[p.qers[i]].qfi = 0) =>
-        s.qers[p.qers[i]].ulGate = 0 /\ s.qers[p.qers[i]].dlGate = 0
 \* different sessions have different UE addresses
 WorldEnvelope(sess) ==
   /\ \A u \in DOMAIN sess : SessEnvelope(sess[u])
